@@ -54,7 +54,7 @@ def _gauss(points, center=(0, 0, 0), a=0.8):
 def _(E, p):
     from grid.basegrid import Grid
 
-    n = 20 + 5 * p
+    n = 20 + 5 * (p % 6)
     g = Grid(E.arr("points", _pts3(n, 1)), E.arr("weights", _wts(n, 2)))
     f1 = E.arr("f1", _rs(3).rand(n))
     f2 = E.alias("f2", "f1", _rs(4).rand(n))
@@ -69,7 +69,7 @@ def _(E, p):
     g = Grid(E.arr("points", _pts3(n, 5)), E.arr("weights", _wts(n, 6)))
     centers = E.arr("centers", _pts3(2, 7, 0.5))
     f = E.arr("func_vals", _rs(8).rand(n))
-    kind = ["cartesian", "radial", "pure", "pure-radial", "cartesian", "pure"][p]
+    kind = ["cartesian", "radial", "pure", "pure-radial", "cartesian", "pure"][p % 6]
     m, orders = g.moments(2, centers, f, kind, return_orders=True)
     return [m, np.asarray(orders, dtype=float)]
 
@@ -90,7 +90,7 @@ def _(E, p):
     from grid.basegrid import Grid
 
     n = 40
-    dim = [1, 2, 3, 3, 2, 3][p]
+    dim = [1, 2, 3, 3, 2, 3][p % 6]
     pts = _pts3(n, 12)[:, :dim] if dim > 1 else _pts3(n, 12)[:, 0]
     g = Grid(E.arr("points", pts), E.arr("weights", _wts(n, 13)))
     c = E.arr("center", np.zeros(dim) if dim > 1 else np.array(0.1))
@@ -155,7 +155,7 @@ def _(E, p):
     rg = _rgrid(5)
     c = E.arr("center", np.array([0.3, -0.2, 0.5]))
     if p % 3 == 0:
-        g = AtomGrid(rg, degrees=E.lst("degrees", [3, 5, 5, 7, 3]), center=c, rotate=p)
+        g = AtomGrid(rg, degrees=E.lst("degrees", [3, 5, 5, 7, 3]), center=c, rotate=p % 7)
     elif p % 3 == 1:
         g = AtomGrid(rg, degrees=E.arr("degrees_arr", np.array([5]), dtype=int), center=c)
     else:
@@ -170,10 +170,10 @@ def _(E, p):
     rg = _rgrid(8)
     c = E.arr("center", np.array([0.0, 0.1, -0.4]))
     if p % 2 == 0:
-        g = AtomGrid.from_pruned(rg, 1.0, E.lst("r_sectors", [0.5, 1.0, 1.5] if p % 4 == 0 else [1.0, 0.5, 1.5]), E.lst("d_sectors", [3, 5, 7, 5]), center=c, rotate=p)
+        g = AtomGrid.from_pruned(rg, 1.0, E.lst("r_sectors", [0.5, 1.0, 1.5] if p % 4 == 0 else [1.0, 0.5, 1.5]), E.lst("d_sectors", [3, 5, 7, 5]), center=c, rotate=p % 7)
     else:
         g = AtomGrid.from_pruned(rg, 1.0, E.arr("r_sectors_arr", np.array([0.5, 1.5])), None, s_sectors=E.arr("s_sectors", np.array([6, 14, 6]), dtype=int), center=c)
-    g2 = AtomGrid.from_preset(1 if p < 3 else 6, ["coarse", "medium", "fine"][p % 3], rgrid=_rgrid(10), center=c)
+    g2 = AtomGrid.from_preset(1 if p % 6 < 3 else 6, ["coarse", "medium", "fine"][p % 3], rgrid=_rgrid(10), center=c)
     return [g, g2]
 
 
@@ -182,7 +182,7 @@ def _(E, p):
     from grid.atomgrid import AtomGrid
 
     rg = _rgrid(6)
-    g = AtomGrid(rg, degrees=[7], center=np.array([0.1, 0.0, -0.1]), rotate=p)
+    g = AtomGrid(rg, degrees=[7], center=np.array([0.1, 0.0, -0.1]), rotate=p % 7)
     f = E.arr("func_vals", _gauss(g.points, g.center, 0.7) * (1 + 0.2 * g.points[:, 2]))
     f2d = E.arr("func_vals_2d", np.vstack([_gauss(g.points, g.center, 0.7), _gauss(g.points, g.center, 1.1)]))
     pts = E.arr("points", _pts3(9, 21, 1.0))
@@ -318,7 +318,7 @@ def _(E, p):
     origin = E.arr("origin", np.array([-1.0, -1.0, -1.0]))
     axes = E.arr("axes", np.eye(3) * 0.4 + (0.05 if p % 2 else 0.0) * np.array([[0, 1, 0], [0, 0, 0], [0, 0, 0]]))
     shape = E.arr("shape", np.array([6, 6, 6]), dtype=int)
-    g = UniformGrid(origin, axes, shape, weight=["Trapezoid", "Rectangle", "Fourier1", "Fourier2", "Alternative", "Trapezoid"][p])
+    g = UniformGrid(origin, axes, shape, weight=["Trapezoid", "Rectangle", "Fourier1", "Fourier2", "Alternative", "Trapezoid"][p % 6])
     vals = E.arr("values", np.exp(-np.sum(g.points**2, axis=1)))
     pts = E.arr("points", _pts3(3, 50, 0.3))
     out = [g, g.closest_point(E.arr("point", np.array([0.1, -0.2, 0.3]))) if p % 2 == 0 else 0.0, g.coordinates_to_index(E.tup("coords", (1, 2, 3))), np.asarray(g.index_to_coordinates(17), dtype=float)]
@@ -357,7 +357,7 @@ def _(E, p):
     from grid.periodicgrid import PeriodicGrid
 
     n = 30
-    dim = [3, 2, 1, 3, 2, 3][p]
+    dim = [3, 2, 1, 3, 2, 3][p % 6]
     pts = _pts3(n, 70, 3.0)[:, :dim] if dim > 1 else _pts3(n, 70, 3.0)[:, 0]
     rv = np.eye(dim) * 2.0 + 0.1 if dim > 1 else np.array([2.0])
     if dim > 1:
@@ -400,7 +400,7 @@ def _(E, p):
     x = E.arr("x", np.linspace(0.0, 1.0, 12))
     fx = E.cb("fx", lambda t: np.array(t, dtype=float), identity=True)
     coeffs = E.lst("coeffs", [-1.0, 0.0, 1.0]) if p % 2 == 0 else E.arr("coeffs_arr", np.array([-1.0, 0.0, 1.0]))
-    bd = E.lst("bd_cond", [[0, 0, 0.0], [1, 0, 1.0]] if p < 4 else [[1, 0, 1.0], [0, 0, 0.0]])
+    bd = E.lst("bd_cond", [[0, 0, 0.0], [1, 0, 1.0]] if p % 6 < 4 else [[1, 0, 1.0], [0, 0, 0.0]])
     guess = E.arr("initial_guess_y", np.zeros((2, 12))) if p % 3 == 0 else None
     sol = solve_ode_bvp(x, fx, coeffs, bd, tol=1e-6, initial_guess_y=guess)
     return [sol(E.arr("eval", np.linspace(0.05, 0.95, 7)))]
@@ -447,7 +447,7 @@ def _(E, p):
     coeffs = E.lst("coeffs", [a0, 0.5, 1.0, 1.0] if order3 else [a0, 0.5, 1.0])
     y0 = E.lst("y0", [0.0, 1.0, 0.0] if order3 else [0.0, 1.0]) if p % 2 else E.arr("y0_arr", np.array([0.0, 1.0, 0.0] if order3 else [0.0, 1.0]))
     span = E.tup("x_span", (0.0, 1.0))
-    tf = LinearFiniteRTransform(0.0, 3.0) if p >= 3 else None
+    tf = LinearFiniteRTransform(0.0, 3.0) if p % 6 >= 3 else None
     if tf is not None:
         span = E.tup("x_span", (-0.9, 0.5))
     sol = solve_ode_ivp(span, fx, coeffs, y0, transform=tf, method=["DOP853", "RK45", "Radau"][p % 3], no_derivatives=False)
@@ -538,7 +538,7 @@ def _(E, p):
         out.append(coulomb_potential(pts, cens, cs, als, centers_p=E.arr("centers_p", _pts3(1, 102, 0.5)), coeffs_p=E.arr("coeffs_p", np.array([0.3])), alphas_p=E.arr("alphas_p", np.array([1.1]))))
     else:
         out.append(coulomb_potential(pts, cens, cs, als))
-    c, a = load_atomic_gaussian_params(["H", 6, "N", 8, "Cl", "c"][p])
+    c, a = load_atomic_gaussian_params(["H", 6, "N", 8, "Cl", "c"][p % 6])
     return out + [c, a]
 
 
@@ -552,7 +552,7 @@ def _(E, p):
     pts = E.arr("points", _pts3(8, 110, 1.0))
     sph = u.convert_cart_to_sph(pts, E.arr("center", np.array([0.1, 0.2, 0.3])))
     out += [sph, u.solid_harmonics(2, E.arr("sph_pts", np.array(sph))), u.get_cov_radii(E.arr("atnums", np.array([1, 6, 8]), dtype=int))]
-    out.append(np.asarray(u.generate_orders_horton_order(2, ["cartesian", "radial", "pure", "pure-radial", "cartesian", "pure"][p], 3), dtype=float))
+    out.append(np.asarray(u.generate_orders_horton_order(2, ["cartesian", "radial", "pure", "pure-radial", "cartesian", "pure"][p % 6], 3), dtype=float))
     out.append(u.convert_derivative_from_spherical_to_cartesian(0.3, 0.2, 0.1, 1.2, 0.4, 0.9))
     return out
 
@@ -710,7 +710,7 @@ def _(E, p):
         coeffs[-1] = E.cb("a_lead", lambda t, v=float(co[-1]): v + 0.0 * np.asarray(t, dtype=float))
     coeffs = E.lst("coeffs", coeffs)
     fx = E.cb("fx", lambda t: np.array(t, dtype=float), identity=True) if p % 3 else E.cb("fx", lambda t: 1.0 + 0.0 * np.asarray(t, dtype=float))
-    tf = LinearFiniteRTransform(0.0, 2.0) if p >= 3 else None
+    tf = LinearFiniteRTransform(0.0, 2.0) if p % 6 >= 3 else None
     out = []
     x = E.arr("x", np.linspace(-0.8, 0.8, 11) if tf is not None else np.linspace(0.0, 1.0, 11))
     if order == 1:
